@@ -451,7 +451,46 @@ def one_transaction_per_request():
                           and ast.unparse(c.func).split(".")[-1] in openers]
         out.append((f"handlers/{h.name}/no_writing_transaction_inside_a_loop", not looped and not looped_openers,
                     f"writing span(s) at relative line(s) {looped} / awaited {looped_openers} inside a loop of the handler"))
+        # a rejection has to leave the span as an exception: DBSession.__aexit__ rolls back only then.  An except clause
+        # (or contextlib.suppress) inside the span that ends without raising lets the span commit what was written
+        # before the rejection
+        sw = [f"+{ln - h.lineno} {what}" for b in writing_blocks for ln, what in _swallowed(b, mut)]
+        out.append((f"handlers/{h.name}/a_rejection_leaves_the_transaction_as_an_exception", not sw,
+                    f"inside a writing span, around mutating calls: {sw}"))
+    # the same below the handlers: no function of the graph modules catches the rejection of a mutating callee and
+    # carries on (it would be committed half-applied by the handler's span)
+    sw = []
+    for m in GRAPH_MODULES:
+        _, tree = extract.read_module(CORE + m)
+        for fn in ast.walk(tree):
+            if isinstance(fn, (ast.FunctionDef, ast.AsyncFunctionDef)):
+                sw += [f"{m}:{fn.name}:{ln} {what}" for ln, what in _swallowed(fn, mut)]
+    out.append(("handlers/graph_functions_do_not_swallow_rejections", not sw, f"swallowing: {sw}"))
     return out
+
+
+GRAPH_MODULES = ["workflow.py", "trellis.py", "step.py", "file.py", "nglob.py", "static_tree.py", "scheduler.py"]
+
+
+def _swallowed(root, mut):
+    """(line, description) of every except clause / suppress block below `root` that can end without raising although
+    its protected statements contain a mutating call."""
+    found = []
+    for t in ast.walk(root):
+        if isinstance(t, ast.Try) and t.handlers:
+            calls = [c.func.attr for b in t.body for c in ast.walk(b)
+                     if isinstance(c, ast.Call) and isinstance(c.func, ast.Attribute) and c.func.attr in mut]
+            if not calls:
+                continue
+            for hd in t.handlers:
+                if not (hd.body and isinstance(hd.body[-1], ast.Raise)):
+                    found.append((hd.lineno, f"except {ast.unparse(hd.type) if hd.type else ''} around {sorted(set(calls))}"))
+        if isinstance(t, (ast.With, ast.AsyncWith)) and any("suppress" in ast.unparse(it.context_expr) for it in t.items):
+            calls = [c.func.attr for b in t.body for c in ast.walk(b)
+                     if isinstance(c, ast.Call) and isinstance(c.func, ast.Attribute) and c.func.attr in mut]
+            if calls:
+                found.append((t.lineno, f"suppress around {sorted(set(calls))}"))
+    return found
 
 
 @replayer("C15/handlers/amend_step/at_most_one_writing_transaction")
